@@ -274,12 +274,19 @@ def prove_read_cache(src_root, state_name, ex: Explorer):
             return A.SimpleAwaitable(it2.aio, 'add', body)
         it.hooks[f'{MGR}:TransferManager.add'] = c_add
         mgr = new(it, MGR, 'TransferManager', cache=Stub('cache', read=Recorder('read', ret=[t])))
+        KEPT = ('username', 'remote_path', 'direction', 'local_path', 'filesize', 'bytes_transfered', 'fail_reason', 'abort_reason')
+        before = {k: t.attrs.get(k) for k in KEPT}
         try:
             run(it, it.getattr(mgr, 'read_cache'))
         except PyRaise as pr:
             ctx.fail(f'C17.read_cache.repair[{state_name}]', repr(pr.exc))
             return
         final = t.attrs['state'].cls.name
+        changed = [k for k in KEPT if t.attrs.get(k) is not before[k]]
+        ctx.prove(f'C17.read_cache.keeps-fields[{state_name}]', not changed,
+                  f'loading changed {changed} of a persisted {state_name} transfer: user, paths, sizes, progress and reasons are what was written')
+        if changed:
+            return
         if state_name == 'InitializingState':
             want_ok = final == 'QueuedState'
         elif state_name in ('DownloadingState', 'UploadingState'):
@@ -339,6 +346,21 @@ def prove_manager_cache_calls(src_root, ex: Explorer):
         ctx.prove(f'C17.write_cache.writes-current-list[n={n}]', len(written) == 1 and list(written[0]) == ts,
                   f'{len(written)} cache writes for a list of {n} transfers: what was removed since the last write stays in the cache')
     ex.run(write, 'manager-write-cache')
+
+    def stop(ctx: Ctx):
+        """the client stores the data AFTER it stopped the services (C16.stop.client): stop() must leave the list of transfers alone"""
+        from contracts.C16 import BT
+        it = mk(src_root, ctx)
+        it.natives['asyncio.Queue'] = Native('Queue', lambda it2, a, k: Opaque('a new queue'))
+        ts = [new(it, MODEL, 'Transfer', _remotely_queue_task=None, _transfer_task=None) for _ in range(2)]
+        lst = list(ts)
+        mgr = new(it, MGR, 'TransferManager', _transfers=lst, _management_queue=Opaque('q'), _management_task=BT('management'),
+                  _progress_reporting_task=BT('progress'))
+        run(it, it.getattr(mgr, 'stop'))
+        now = mgr.attrs['_transfers']
+        ctx.prove('C17.stop.keeps-transfers', isinstance(now, list) and len(now) == 2 and all(a is b for a, b in zip(now, ts)),
+                  'stop() dropped transfers from the list: the cache written on shutdown loses them')
+    ex.run(stop, 'manager-stop')
 
     def start(ctx: Ctx):
         from contracts.C16 import BT
